@@ -63,7 +63,7 @@ impl Discrete for Poisson {
         if k < 0 {
             0.
         } else {
-            self.lambda.powi(k as i32) * (-self.lambda).exp() / gamma(k as f64)
+            self.lambda.powi(k as i32) * (-self.lambda).exp() / gamma(k as f64 + 1.)
         }
     }
 }
